@@ -5,7 +5,7 @@
 // The mutating algorithms (fill, reverse, sort) and operator-> may have bodies that do not compile
 // for proxy references; that is invisible to SFINAE, so checks/c12.py instantiates each
 // (kind, algorithm) pair in a generated probe translation unit first and passes the outcome to the
-// driver build as a capability mask (see CAP_* below).
+// driver build as a capability mask (see CAP_* below; std::rotate since round 3).
 #ifndef C12_ITER_ALGOS_HPP
 #define C12_ITER_ALGOS_HPP
 #include "iter_kinds.hpp"
@@ -14,7 +14,7 @@
 
 namespace c12
 {
-    enum : unsigned { CAP_ARROW = 1, CAP_FILL = 2, CAP_REVERSE = 4, CAP_SORT = 8, CAP_ALL = 15 };
+    enum : unsigned { CAP_ARROW = 1, CAP_FILL = 2, CAP_REVERSE = 4, CAP_SORT = 8, CAP_ROTATE = 16, CAP_COPYWITHIN = 32, CAP_ALL = 63 };
 
     template <class It, class = void>
     struct has_traits : std::false_type {};
@@ -132,6 +132,21 @@ namespace c12
     void algo_sort(It a, It b)
     {
         std::sort(a, b, [](const auto& x, const auto& y) { return K::vals(x) < K::vals(y); });
+    }
+    template <class K, class It>
+    It algo_rotate(It a, It mid, It b)
+    {
+        return std::rotate(a, mid, b);
+    }
+    template <class K, class It>
+    It algo_copy_within(It a, It b, It d)
+    {
+        return std::copy(a, b, d);
+    }
+    template <class K, class It>
+    It algo_min_element(It a, It b)
+    {
+        return std::min_element(a, b, [](const auto& x, const auto& y) { return K::vals(x) < K::vals(y); });
     }
     template <class K, class It>
     std::string arrow_of(const It& x)
